@@ -8,6 +8,7 @@ pat="${1:-*}"
 miss=0; n=0
 for d in seeded/$pat; do
   [ -f "$d/patch.diff" ] || continue
+  if grep -q '"not_demanded"' "$d/meta.json" 2>/dev/null; then echo "$(basename $d) not demanded (see meta.json)"; continue; fi
   if grep -q '"superseded"' "$d/meta.json" 2>/dev/null; then echo "$(basename $d) superseded (a later fix: commit made the change harmless; see meta.json)"; continue; fi
   id=$(basename "$d"); prop=${id%%-*}
   WT=$(mktemp -d /tmp/wt-reg-XXXX); rmdir "$WT"
